@@ -27,7 +27,8 @@ RULE = ('every rectangular table with n rows (0..max, header-only and single-row
         'duplicates+unique partition, distinct, distinct(count=), conflicts (include/exclude forms; missing markers '
         'identical to the cells (1), equal but of another type (1.0, True vs int 1) and equal but a different object '
         '(run-time built str, parsed float, tuple, large int: cells and argument are built by separate calls)), '
-        'isunique}; plus subclass-instance key cells (int/float/str subclasses and IntEnum members equal to a plain '
+        'isunique}; plus row container types (list rows mixed with tuple rows, default and presorted=True); plus '
+        'subclass-instance key cells (int/float/str subclasses and IntEnum members equal to a plain '
         'value in the column); plus failed-first-pass histories: each operator over a source that fails once at every '
         'item position, buffersize 1..n by argument and via petl.config.sort_buffersize, cache=True, passes 2 and 3 '
         'of the same view against the reference; states = distinct (table, key, variant) points; transitions = operator evaluations; a state '
@@ -145,6 +146,10 @@ def _families(tier, seed):
     SUB = [i1, Code(i1), Level(i1), Ratio(float(i1)), i2, K4[3], Txt(K4[3])]
     fams['sub'] = dict(hdr=('k', 'v'), syms=[(k, v) for k in SUB for v in V], maxn=4 if thorough else 3,
                        keys=['k', ('k', 'v'), None, 0], variants=base, cargs=('plain',))
+    # row container type per row: list rows mixed with tuple rows of equal content are the same rows (whole-row
+    # key=None in particular), in the default call and with presorted=True where no sort view re-wraps them
+    fams['rowtypes'] = dict(hdr=('k', 'v'), syms=[(k, v) for k in K3 for v in V], maxn=4 if thorough else 3,
+                            keys=[None, 'k', ('k', 'v')], variants=('mixed', 'presorted-mixed'), cargs=('plain',))
     # strategy variants on a smaller family (the sort below the operators is C05's subject)
     fams['kvb'] = dict(hdr=('k', 'v'), syms=[(k, v) for k in K3 for v in V], maxn=4 if thorough else 3,
                        keys=[None, 'k'], variants=('bs1', 'bs2', 'bs1-nocache'), cargs=('plain',))
@@ -212,7 +217,7 @@ def _cargs(name):
 
 
 def _kw(variant):
-    return {'default': {}, 'presorted': {'presorted': True}, 'bs1': {'buffersize': 1}, 'bs2': {'buffersize': 2},
+    return {'default': {}, 'presorted': {'presorted': True}, 'mixed': {}, 'presorted-mixed': {'presorted': True}, 'bs1': {'buffersize': 1}, 'bs2': {'buffersize': 2},
             'bs1-nocache': {'buffersize': 1, 'cache': False}}[variant]
 
 
@@ -255,6 +260,9 @@ def eval_op(op, hdr, rows, key, variant, cname=None, stats=None):
     hdr = tuple(hdr)
     rows = [tuple(r) for r in rows]
     tbl = [hdr] + rows
+    if variant.endswith('mixed'):
+        # rows alternate between list and tuple containers (equal content)
+        tbl = [hdr] + [list(r) if i % 2 == 0 else tuple(r) for i, r in enumerate(rows)]
     kw = _kw(variant)
     kf = dr.keyfn(hdr, key)
 
@@ -342,7 +350,7 @@ def check_table(acc, famname, fam, rows):
         sizes = [len(g) for _, g in dr.groups(rows, kf)]
         nontriv = (1 in sizes) and any(s > 1 for s in sizes)
         for variant in fam['variants']:
-            use = sr.presort(hdr, rows, key, False) if variant == 'presorted' else rows
+            use = sr.presort(hdr, rows, key, False) if variant in ('presorted', 'presorted-mixed') else rows
             acc.states += 1
             if nontriv:
                 acc.nontrivial += 1
@@ -361,7 +369,8 @@ def check_table(acc, famname, fam, rows):
                 if op == 'conflicts' and cname != 'plain':
                     label += '(%s)' % ', '.join(sorted(_cargs(cname)))
                 where = 'header-only table' if n == 0 else \
-                    'key=%s%s' % (kform, '' if variant in ('default', 'presorted') else ', buffersize given')
+                    'key=%s%s' % (kform, '' if variant in ('default', 'presorted') else
+                                  (', mixed list/tuple rows' if variant.endswith('mixed') else ', buffersize given'))
                 group = '%s | %s | %s' % (label, sig, where)
                 if op in _TIE_OPS and sort_tie_splits_equal_keys(hdr, use, key):
                     group += TIE_SUFFIX
@@ -492,7 +501,7 @@ def _table_ms(fam, n):
     for key in fam['keys']:
         for v in fam['variants']:
             nops = 7 + (len(fam['cargs']) if key is not None else 0) + 1
-            per += nops * (0.05 + (0.0 if v in ('default', 'presorted') else 0.6 * max(1, n)))
+            per += nops * (0.05 + (0.0 if not v.startswith('bs') else 0.6 * max(1, n)))
     return per + 0.1
 
 
